@@ -141,7 +141,14 @@ def gen_driver(proj, r, f, fi, contract, strcap):
             bt = p.ctype.rstrip('* ').strip()
             if n not in inp:
                 inp[n] = dict(binary='0' * 64 if bt in ('double', 'long long', 'unsigned long long', 'size_t', 'long') else '0' * 32 if bt in ('int', 'unsigned', 'float') else '0' * 8, data='0')
-            L.append('  %s %s_obj = %s; %s* %s = &%s_obj;' % (bt.replace('_Bool', 'bool'), p.name, _lit(bt, inp[n]), bt.replace('_Bool', 'bool'), p.name, p.name))
+            cppbase = X.norm_type(p.cpptype).rstrip('&').strip()
+            if cppbase in ('real', 'T'):
+                cppbase = 'double'
+            if cppbase not in ('int', 'unsigned', 'unsigned int', 'bool', 'char', 'long long', 'unsigned long long', 'long', 'double', 'float', 'size_t', 'short'):
+                # an enum of the class: the real object has the enum type, the clauses see it as int
+                L.append('  %s::%s %s_obj = (%s::%s)(%s); int* %s = reinterpret_cast<int*>(&%s_obj);' % (cls, cppbase, p.name, cls, cppbase, _lit('int', inp[n]), p.name, p.name))
+            else:
+                L.append('  %s %s_obj = %s; %s* %s = &%s_obj;' % (bt.replace('_Bool', 'bool'), p.name, _lit(bt, inp[n]), bt.replace('_Bool', 'bool'), p.name, p.name))
             call_args.append('%s_obj' % p.name)
         elif p.kind in ('str_in', 'str_out'):
             ln = inp.get(n + '.len')
@@ -268,6 +275,16 @@ def make_replay_inner(proj, prop, r, f, workdir, path, requeried=False):
                native_output=None, driver=None, requeried=requeried)
     verdict = 'no-failing-input-found'
     try:
+        if not requeried and r.get('fi') is not None and r.get('jobobj') is not None:
+            # the formula is sliced for speed, so the trace may lack inputs: ask again for this one obligation, unsliced
+            names = ['in_' + p.name for p in r['fi'].params if p.kind in ('val', 'ref')] + ['in_%s.len' % p.name for p in r['fi'].params if p.kind in ('str_in', 'str_out')]
+            if any(n not in (f.get('trace_inputs') or {}) for n in names):
+                from . import runner
+                f2 = runner.requery(proj, r['jobobj'], workdir, f['id'], None)
+                if f2 is not None and f2.get('trace_inputs'):
+                    f = dict(f, trace_inputs=f2['trace_inputs'], trace_tail=f2.get('trace_tail'))
+                    rec['counterexample_inputs'] = {k: v['data'] for k, v in f['trace_inputs'].items()}
+                    rec['counterexample_bits'] = {k: v['binary'] for k, v in f['trace_inputs'].items()}
         contract = T.Contract(r['contract_path'])
         if f.get('clause'):
             rec['clause_text'] = contract.clause_text(f['clause'].split(':', 1)[1])
